@@ -606,6 +606,12 @@ class JSONSchemaMaker:
         return json_schema
 
 
+class ExtendedSchemaMaker(SchemaMaker):
+    """A SchemaMaker that also accepts the extended vocabulary's ``decimal`` type."""
+
+    ATOMIC = SchemaMaker.ATOMIC | {"decimal"}
+
+
 class JSONSchemaMakerExtendedVocabulary(JSONSchemaMaker):
     """
     A JSONSchemaMaker with an extended, non-standard vocabulary.
@@ -620,9 +626,7 @@ class JSONSchemaMakerExtendedVocabulary(JSONSchemaMaker):
 
     def __init__(self, unpacker: type[Unpacker[NDInstance]] = EBCDIC) -> None:
         super().__init__(unpacker)
-        self.atomic_maker = SchemaMaker()
-        # Extended vocabulary hack.
-        self.atomic_maker.ATOMIC.add("decimal")
+        self.atomic_maker = ExtendedSchemaMaker()
 
     def json_type(self, node: DDE) -> JSON:
         """
